@@ -77,12 +77,19 @@ def mkCat (a b : Re) : Re :=
     | .fail => .fail
     | _ => .cat a b
 
+/-- is `a` already one of the alternatives `b` is made of -/
+def altMem (a : Re) : Re → Bool
+  | .alt x y => altMem a x || altMem a y
+  | r => a == r
+
+/-- alternation up to `fail` and to alternatives that are already there (without the latter the
+    derivatives of nested repetitions such as `(\S+)*` double at every byte) -/
 def mkAlt (a b : Re) : Re :=
   match a with
   | .fail => b
   | _ => match b with
     | .fail => a
-    | _ => .alt a b
+    | _ => if altMem a b then b else .alt a b
 
 /-- derivative by the byte `c` whose left neighbour is `prev` -/
 def deriv (prev : Option UInt8) (c : UInt8) : Re → Re
